@@ -1,0 +1,93 @@
+//go:build verif
+
+// Contracts for contract-based deductive verification with govc (see /verif/DESIGN.md).
+// This file is comment-only: it adds no code and is compiled only with the build tag "verif".
+// One clause per //@ line (continued while parentheses are open).  Vocabulary: the spec functions
+// generated from /verif/spec/v31.spec and the representation declared below (field31, midx31,
+// vcode31, vstr31, wf31, ...), plus /verif/spec/common.smt2 and /verif/spec/v31.smt2.
+
+package gocvss31
+
+//@ repr CVSS31
+//@ bytes 6
+//@ field AV  u0[7:6] codes N A L P
+//@ field AC  u0[5:5] codes L H
+//@ field PR  u0[4:3] codes N L H
+//@ field UI  u0[2:2] codes N R
+//@ field S   u0[1:1] codes U C
+//@ field C   u0[0:0]+u1[7:7] codes H L N
+//@ field I   u1[6:5] codes H L N
+//@ field A   u1[4:3] codes H L N
+//@ field E   u1[2:0] codes X H F P U
+//@ field RL  u2[7:5] codes X U W T O
+//@ field RC  u2[4:3] codes X C R U
+//@ field CR  u2[2:1] codes X H M L
+//@ field IR  u2[0:0]+u3[7:7] codes X H M L
+//@ field AR  u3[6:5] codes X H M L
+//@ field MAV u3[4:2] codes X N A L P
+//@ field MAC u3[1:0] codes X L H
+//@ field MPR u4[7:6] codes X N L H
+//@ field MUI u4[5:4] codes X N R
+//@ field MS  u4[3:2] codes X U C
+//@ field MC  u4[1:0] codes X H L N
+//@ field MI  u5[7:6] codes X H L N
+//@ field MA  u5[5:4] codes X H L N
+//@ unused u5[3:0]
+
+// ---- Set / Get / validate (C07, C09, C06, C18) ----
+
+//@ func (*CVSS31).Set(cvss31, abv, value)
+//@   requires[wf] (wf31 cvss31)
+//@   inline validate
+//@   modifies cvss31
+//@   ensures[ok_iff_legal] (= (isnil result) (and (>= (midx31 abv) 0) (not (= (vcode31 (midx31 abv) value) #xff))))
+//@   ensures[sets_metric] (=> (isnil result) (= (field31 cvss31 (midx31 abv)) (vcode31 (midx31 abv) value)))
+//@   ensures[frame_other_metrics] (forall-in (m 0 21) (=> (not (and (isnil result) (= m (midx31 abv)))) (= (field31 cvss31 m) (field31 (old cvss31) m))))
+//@   ensures[fail_unchanged] (=> (not (isnil result)) (= cvss31 (old cvss31)))
+//@   ensures[wf_preserved] (wf31 cvss31)
+//@   ensures[err_unknown_metric] (=> (< (midx31 abv) 0) (and (is-ErrInvalidMetric result) (str= (pabv result) abv)))
+//@   ensures[err_illegal_value] (=> (and (>= (midx31 abv) 0) (= (vcode31 (midx31 abv) value) #xff)) (= result ErrInvalidMetricValue))
+//@   allocs 0
+
+//@ func (CVSS31).Get(cvss31, abv)
+//@   requires[wf] (wf31 cvss31)
+//@   ensures[known_metric_value] (=> (>= (midx31 abv) 0) (and (isnil result.1) (= (vcode31 (midx31 abv) result.0) (field31 cvss31 (midx31 abv))) (not (= (vcode31 (midx31 abv) result.0) #xff))))
+//@   ensures[nonempty] (=> (>= (midx31 abv) 0) (> (len result.0) 0))
+//@   ensures[unknown_metric] (=> (< (midx31 abv) 0) (and (is-ErrInvalidMetric result.1) (str= (pabv result.1) abv) (= (len result.0) 0)))
+
+//@ func validate(value, enabled)
+//@   requires[short_list] (<= (len enabled) 255)
+//@   loop 1 invariant[bounds] (and (<= (- 1) rangeindex) (< rangeindex (len enabled)) (= (bv2nat i) (+ rangeindex 1)))
+//@   loop 1 invariant[none_before] (forall ((k Int)) (! (=> (and (<= 0 k) (<= k rangeindex)) (not (streq value (at enabled k)))) :pattern ((at enabled k))))
+//@   loop 1 decreases (- (len enabled) rangeindex)
+//@   ensures[found_first] (=> (isnil result.1) (and (< (bv2nat result.0) (len enabled)) (streq value (at enabled (bv2nat result.0))) (forall ((k Int)) (! (=> (and (<= 0 k) (< k (bv2nat result.0))) (not (streq value (at enabled k)))) :pattern ((at enabled k))))))
+//@   ensures[not_found] (=> (not (isnil result.1)) (and (= result.1 ErrInvalidMetricValue) (= result.0 #x00) (forall ((k Int)) (! (=> (and (<= 0 k) (< k (len enabled))) (not (streq value (at enabled k)))) :pattern ((at enabled k))))))
+
+//@ func (CVSS31).get(cvss31, abv)
+//@   requires[wf] (wf31 cvss31)
+//@   inline Get
+//@   ensures[value] (=> (>= (midx31 abv) 0) (and (= (vcode31 (midx31 abv) result) (field31 cvss31 (midx31 abv))) (not (= (vcode31 (midx31 abv) result) #xff)) (> (len result) 0)))
+
+//@ func mod(base, modified) pure
+
+// ---- kvm: "already seen" flags of the v3 parser (C01, C18) ----
+
+//@ smt (define-fun kvmflag ((k kvm) (m Int)) Bool (ite (= m 0) (kvm.av k) (ite (= m 1) (kvm.ac k) (ite (= m 2) (kvm.pr k) (ite (= m 3) (kvm.ui k) (ite (= m 4) (kvm.s k) (ite (= m 5) (kvm.c k) (ite (= m 6) (kvm.i k) (ite (= m 7) (kvm.a k) (ite (= m 8) (kvm.e k) (ite (= m 9) (kvm.rl k) (ite (= m 10) (kvm.rc k) (ite (= m 11) (kvm.cr k) (ite (= m 12) (kvm.ir k) (ite (= m 13) (kvm.ar k) (ite (= m 14) (kvm.mav k) (ite (= m 15) (kvm.mac k) (ite (= m 16) (kvm.mpr k) (ite (= m 17) (kvm.mui k) (ite (= m 18) (kvm.ms k) (ite (= m 19) (kvm.mc k) (ite (= m 20) (kvm.mi k) (ite (= m 21) (kvm.ma k) false)))))))))))))))))))))))
+
+//@ func (*kvm).Set(kvm, abv)
+//@   modifies kvm
+//@   ensures[unknown] (=> (< (midx31 abv) 0) (and (is-ErrInvalidMetric result) (str= (pabv result) abv) (= kvm (old kvm))))
+//@   ensures[duplicate] (=> (and (>= (midx31 abv) 0) (kvmflag (old kvm) (midx31 abv))) (and (is-ErrDefinedN result) (str= (pabv result) abv) (= kvm (old kvm))))
+//@   ensures[fresh] (=> (and (>= (midx31 abv) 0) (not (kvmflag (old kvm) (midx31 abv)))) (and (isnil result) (forall-in (m 0 21) (= (kvmflag kvm m) (or (kvmflag (old kvm) m) (= m (midx31 abv)))))))
+
+// ---- Rating (C15) ----
+
+//@ func Rating(score)
+//@   requires[not_nan] (not (fp.isNaN score))
+//@   ensures[none]     (=> (= (ratingClass score) 0) (and (isnil result.1) (str= result.0 "NONE")))
+//@   ensures[low]      (=> (= (ratingClass score) 1) (and (isnil result.1) (str= result.0 "LOW")))
+//@   ensures[medium]   (=> (= (ratingClass score) 2) (and (isnil result.1) (str= result.0 "MEDIUM")))
+//@   ensures[high]     (=> (= (ratingClass score) 3) (and (isnil result.1) (str= result.0 "HIGH")))
+//@   ensures[critical] (=> (= (ratingClass score) 4) (and (isnil result.1) (str= result.0 "CRITICAL")))
+//@   ensures[out_of_bounds] (=> (= (ratingClass score) (- 1)) (and (= result.1 ErrOutOfBoundsScore) (= (len result.0) 0)))
+//@   allocs 0
